@@ -38,7 +38,15 @@ AbstractParameterAliasable::AbstractParameterAliasable(const AbstractParameterAl
 
 AbstractParameterAliasable& AbstractParameterAliasable::operator=(const AbstractParameterAliasable& ap)
 {
+  if (this == &ap)
+    return *this;
+
   AbstractParametrizable::operator=(ap);
+
+  // Forget the previous independent parameters and alias listeners:
+  // they refer to the parameter objects that were just replaced.
+  independentParameters_.reset();
+  aliasListenersRegister_.clear();
 
   for (size_t i = 0; i < ap.independentParameters_.size(); i++)
   {
